@@ -22,10 +22,6 @@ def run_inprocess(ctx, pid, n, theorems, need=()):
                             ops=[(t, op, p) for (t, op, p) in c["ops"]][:4], outcome=r["res"]["status"],
                             first_actions=[a for a, _ in r["trace"][:12]]), limit=8)
     ctx.suite("idlerel", scenarios=len(out), **total)
-    for k in ("releases", "reloads_by_sender", "released_on_time", "crashes", "yielding_store",
-              "compared_with_reference") + tuple(need):
-        k, m = (k if isinstance(k, tuple) else (k, 1))
-        ctx.require_coverage("idlerel", k, total.get(k, 0), m)
     bad = [r for r in out if r["conform"] != 0]
     ctx.disagreements += len(bad)
     ctx.disagreements_checked += len(bad)
@@ -54,4 +50,11 @@ def run_inprocess(ctx, pid, n, theorems, need=()):
                       found_input=False)
     elif bad:
         ctx.notes.append("%d model/implementation disagreements accompany the monitor failures" % len(bad))
+    if not ctx.violations:
+        # generators fail closed -- but a run that already produced a concrete failing input is a verdict, not a
+        # coverage problem (a defect may well make a whole branch unreachable)
+        for k in ("releases", "reloads_by_sender", "released_on_time", "crashes", "yielding_store",
+                  "compared_with_reference") + tuple(need):
+            k, m = (k if isinstance(k, tuple) else (k, 1))
+            ctx.require_coverage("idlerel", k, total.get(k, 0), m)
     return out, total
